@@ -265,6 +265,9 @@ def r3_ownership_predicate(ctx):
             names = {y.id for y in ast.walk(fa.expr) if isinstance(y, ast.Name)}
             if flag is not None and names == {flag}:
                 continue
+            # "one of the sufficient tests failed" (the fallback written as the last arm of the chain) says the same as "still undecided"
+            if fa.polarity is False and (any(fa.expr is t.ast for (t, _o) in cmp_tests) or (isinstance(fa.expr, ast.Call) and is_name(fa.expr.func, 'hasattr'))):
+                continue
             extra.append(fa)
         rep.ob('C16.R3', ctx.loc(f, n.ast), ctx.src(n.ast), not extra,
                'consulted whenever the verdict is still undecided' if not extra else
